@@ -16,13 +16,22 @@ Rec == ndJsonDeserialize(IOEnv.TRACE)
 
 VARIABLES
     l,      \* next line of the trace
-    objs,   \* id -> built interpolator (configuration + certified reference model)
-    memoP,  \* functional-dependence memo: set of <<family, key, bits>>
-    memoK,  \* its keys: set of <<family, key>>
-    bad,    \* violations found so far (sequence of records)
-    cov,    \* coverage class (string) -> count
-    head    \* strategy/element class -> largest observed error in per-mille of its tolerance band
-vars == <<l, objs, memoP, memoK, bad, cov, head>>
+    sigma   \* the specification state, one record (see below)
+vars == <<l, sigma>>
+
+(***************************************************************************)
+(* The state is kept in ONE record variable so that every trace action is  *)
+(* a single assignment sigma' = F(sigma, event), F a pure operator: TLC    *)
+(* evaluates each LET definition of F once per event (with several primed  *)
+(* assignments per action TLC re-evaluates shared definitions for every    *)
+(* conjunct, which made validation super-linear in the batch size).        *)
+(***************************************************************************)
+objs  == sigma.objs     \* id -> built interpolator (configuration + certified reference model)
+memoP == sigma.memoP    \* functional-dependence memo: set of <<family, key, bits>>
+memoK == sigma.memoK    \* its keys: set of <<family, key>>
+bad   == sigma.bad      \* violations found so far (sequence of records)
+cov   == sigma.cov      \* coverage class (string) -> count
+head  == sigma.head     \* strategy/element class -> largest observed error in per-mille of its tolerance band
 
 MaxBadPerEvent == 4
 
@@ -265,12 +274,12 @@ DoB1(ev) ==
         v18 == IF ev.st.k = "Custom"
                THEN CustomBuildViolations(ev, FALSE, ViolatedKinds1([inp EXCEPT !.st = [@ EXCEPT !.fb = 0]]), xbits, <<>>)
                ELSE <<>>
-    IN  /\ Assert(polyOk, <<"harness error: polynomial claim of build event does not hold", l>>)
-        /\ objs' = IF mk THEN (ev.id :> oo) @@ objs ELSE objs
-        /\ bad' = bad \o v10 \o v18
-        /\ cov' = Bump(cov, <<"B1|" \o ev.st.k \o "|" \o ev.out>> \o (IF isSpl /\ mk THEN [j \in 1..L |-> BcClass(bcs[j], n)] ELSE <<>>)
-                             \o (IF Has(ev, "poly") /\ mk THEN <<"POLY|" \o ev.st.k>> ELSE <<>>))
-        /\ UNCHANGED <<memoP, memoK, head>>
+    IN  IF Assert(polyOk, <<"harness error: polynomial claim of build event does not hold", l>>)
+        THEN [sigma EXCEPT !.objs = IF mk THEN (ev.id :> oo) @@ objs ELSE objs,
+                   !.bad = bad \o v10 \o v18,
+                   !.cov = Bump(cov, <<"B1|" \o ev.st.k \o "|" \o ev.out>> \o (IF isSpl /\ mk THEN [j \in 1..L |-> BcClass(bcs[j], n)] ELSE <<>>)
+                             \o (IF Has(ev, "poly") /\ mk THEN <<"POLY|" \o ev.st.k>> ELSE <<>>))]
+        ELSE sigma
 
 ----------------------------------------------------------------------------
 \* Query events (1-D)
@@ -343,7 +352,7 @@ CustomValues2(ev, o, res, go) ==
 
 DoQ1(ev) ==
     IF ev.id \notin DOMAIN objs
-    THEN /\ cov' = Bump(cov, <<"Q1|orphan">>) /\ UNCHANGED <<objs, memoP, memoK, bad, head>>
+    THEN [sigma EXCEPT !.cov = Bump(cov, <<"Q1|orphan">>)]
     ELSE
     LET o == objs[ev.id]
         sk == o.st.k
@@ -427,12 +436,12 @@ DoQ1(ev) ==
                    \o (IF judgeEl THEN [k \in 1..N |-> "EL|" \o sk \o "|" \o o.el \o "|" \o J[k].class] ELSE <<>>)
         vRel == IF judge /\ vShape = <<>> /\ ev.en = "array" THEN RelViolations(ev, o, res, FALSE) ELSE <<>>
         keepLast == judge /\ vShape = <<>> /\ ev.en = "array"
-    IN  /\ bad' = bad \o vOut \o vShape \o Cap(vEl) \o vMemo \o vBuf \o Cap(vCust) \o Cap(vCast) \o Cap(vRel)
-        /\ memoP' = memoP \cup pairs
-        /\ memoK' = memoK \cup {<<p[1], p[2]>> : p \in pairs}
-        /\ cov' = Bump(cov, classes \o (IF vRel # <<>> \/ (keepLast /\ Has(o, "rel")) THEN <<"RELQ|" \o sk>> ELSE <<>>))
-        /\ head' = IF judgeEl THEN HeadUp(head, hk, hv) ELSE head
-        /\ objs' = IF keepLast THEN [objs EXCEPT ![ev.id] = [last |-> [q |-> ev.q.v, r |-> res.v]] @@ o] ELSE objs
+    IN  [sigma EXCEPT !.bad = bad \o vOut \o vShape \o Cap(vEl) \o vMemo \o vBuf \o Cap(vCust) \o Cap(vCast) \o Cap(vRel),
+                   !.memoP = memoP \cup pairs,
+                   !.memoK = memoK \cup {<<p[1], p[2]>> : p \in pairs},
+                   !.cov = Bump(cov, classes \o (IF vRel # <<>> \/ (keepLast /\ Has(o, "rel")) THEN <<"RELQ|" \o sk>> ELSE <<>>)),
+                   !.head = IF judgeEl THEN HeadUp(head, hk, hv) ELSE head,
+                   !.objs = IF keepLast THEN [objs EXCEPT ![ev.id] = [last |-> [q |-> ev.q.v, r |-> res.v]] @@ o] ELSE objs]
 
 ----------------------------------------------------------------------------
 \* 2-D build and query events
@@ -472,11 +481,11 @@ DoB2(ev) ==
         v18 == IF ev.st.k = "Custom"
                THEN CustomBuildViolations(ev, TRUE, ViolatedKinds2([inp EXCEPT !.st = [@ EXCEPT !.fb = 0]]), xbits, ybits)
                ELSE <<>>
-    IN  /\ Assert(polyOk, <<"harness error: bilinear-function claim of build event does not hold", l>>)
-        /\ objs' = IF mk THEN (ev.id :> oo) @@ objs ELSE objs
-        /\ bad' = bad \o v10 \o v18
-        /\ cov' = Bump(cov, <<"B2|" \o ev.st.k \o "|" \o ev.out>> \o (IF Has(ev, "poly") /\ mk THEN <<"POLY|Bilinear">> ELSE <<>>))
-        /\ UNCHANGED <<memoP, memoK, head>>
+    IN  IF Assert(polyOk, <<"harness error: bilinear-function claim of build event does not hold", l>>)
+        THEN [sigma EXCEPT !.objs = IF mk THEN (ev.id :> oo) @@ objs ELSE objs,
+                   !.bad = bad \o v10 \o v18,
+                   !.cov = Bump(cov, <<"B2|" \o ev.st.k \o "|" \o ev.out>> \o (IF Has(ev, "poly") /\ mk THEN <<"POLY|Bilinear">> ELSE <<>>))]
+        ELSE sigma
 
 JudgeBilElem(o, lane, qxb, qyb, qx, qy, obsb) ==
     LET i == Bracket(o.x, qx)
@@ -510,7 +519,7 @@ JudgeBilElem(o, lane, qxb, qyb, qx, qy, obsb) ==
 
 DoQ2(ev) ==
     IF ev.id \notin DOMAIN objs
-    THEN /\ cov' = Bump(cov, <<"Q2|orphan">>) /\ UNCHANGED <<objs, memoP, memoK, bad, head>>
+    THEN [sigma EXCEPT !.cov = Bump(cov, <<"Q2|orphan">>)]
     ELSE
     LET o == objs[ev.id]
         sk == o.st.k
@@ -589,12 +598,12 @@ DoQ2(ev) ==
                    \o (IF judgeEl THEN [k \in 1..N |-> "EL|" \o sk \o "|" \o o.el \o "|" \o J[k].class] ELSE <<>>)
         vRel == IF judge /\ vShape = <<>> /\ ev.en = "array" THEN RelViolations(ev, o, res, TRUE) ELSE <<>>
         keepLast == judge /\ vShape = <<>> /\ ev.en = "array"
-    IN  /\ bad' = bad \o vOut \o vShape \o Cap(vEl) \o vMemo \o vBuf \o Cap(vCust) \o Cap(vCast) \o Cap(vRel)
-        /\ memoP' = memoP \cup pairs
-        /\ memoK' = memoK \cup {<<p[1], p[2]>> : p \in pairs}
-        /\ cov' = Bump(cov, classes \o (IF vRel # <<>> \/ (keepLast /\ Has(o, "rel")) THEN <<"RELQ|" \o sk>> ELSE <<>>))
-        /\ head' = IF judgeEl THEN HeadUp(head, hk, hv) ELSE head
-        /\ objs' = IF keepLast THEN [objs EXCEPT ![ev.id] = [last |-> [q |-> ev.q.v, q2 |-> ev.q2.v, r |-> res.v]] @@ o] ELSE objs
+    IN  [sigma EXCEPT !.bad = bad \o vOut \o vShape \o Cap(vEl) \o vMemo \o vBuf \o Cap(vCust) \o Cap(vCast) \o Cap(vRel),
+                   !.memoP = memoP \cup pairs,
+                   !.memoK = memoK \cup {<<p[1], p[2]>> : p \in pairs},
+                   !.cov = Bump(cov, classes \o (IF vRel # <<>> \/ (keepLast /\ Has(o, "rel")) THEN <<"RELQ|" \o sk>> ELSE <<>>)),
+                   !.head = IF judgeEl THEN HeadUp(head, hk, hv) ELSE head,
+                   !.objs = IF keepLast THEN [objs EXCEPT ![ev.id] = [last |-> [q |-> ev.q.v, q2 |-> ev.q2.v, r |-> res.v]] @@ o] ELSE objs]
 
 ----------------------------------------------------------------------------
 \* direct calls of the public helpers and accessors
@@ -612,9 +621,8 @@ DoMono(ev) ==
                    (IF ev.out \in {"Rising:1", "Rising:0"} THEN <<V({"C12"}, "C12|monotonic_prop|NaN-called-rising", <<ev.v, ev.out>>)>> ELSE <<>>)
               ELSE IF ev.out # want THEN <<V({"C12"}, "C12|monotonic_prop|misclassified", <<ev.v, ev.out, want>>)>>
               ELSE <<>>
-    IN  /\ bad' = bad \o vv
-        /\ cov' = Bump(cov, <<"MONO|" \o ev.el \o "|" \o ev.lay \o "|" \o (IF hasNaN THEN "NaN" ELSE want)>>)
-        /\ UNCHANGED <<objs, memoP, memoK, head>>
+    IN  [sigma EXCEPT !.bad = bad \o vv,
+                   !.cov = Bump(cov, <<"MONO|" \o ev.el \o "|" \o ev.lay \o "|" \o (IF hasNaN THEN "NaN" ELSE want)>>)]
 
 \* get_lower_index on a bare vector (C11); precondition of the property: strictly increasing axis, non-NaN query
 DoLower(ev) ==
@@ -627,13 +635,12 @@ DoLower(ev) ==
               ELSE <<>>
         path == IF Len(ev.lk) > 0 THEN ev.lk[1].path ELSE "nohook"
         pos == IF NLe(q, x[1]) THEN "below" ELSE IF NLe(x[Len(x)], q) THEN "above" ELSE "inside"
-    IN  /\ bad' = bad \o vv
-        /\ cov' = Bump(cov, <<"LOWER|" \o ev.el \o "|" \o path \o "|" \o pos>>)
-        /\ UNCHANGED <<objs, memoP, memoK, head>>
+    IN  [sigma EXCEPT !.bad = bad \o vv,
+                   !.cov = Bump(cov, <<"LOWER|" \o ev.el \o "|" \o path \o "|" \o pos>>)]
 
 \* index_point / is_in_range / get_index_left_of on a built interpolator (C18 accessors, C11)
 DoAcc(ev) ==
-    IF ev.id \notin DOMAIN objs THEN /\ cov' = Bump(cov, <<"ACC|orphan">>) /\ UNCHANGED <<objs, memoP, memoK, bad, head>>
+    IF ev.id \notin DOMAIN objs THEN [sigma EXCEPT !.cov = Bump(cov, <<"ACC|orphan">>)]
     ELSE
     LET o == objs[ev.id]
         twoD == o.kind = "2D"
@@ -654,9 +661,8 @@ DoAcc(ev) ==
                       THEN <<V({"C11", "C18"}, "C11|get_index_left_of|wrong-interval", <<ev.q, ev.left>>)>> ELSE <<>>)
                  \o (IF twoD /\ ~IsNaN(q) /\ ~IsNaN(QDecode(o.el, ev.q2)) /\ AllFin(o.y) /\ (ev.left2 < 0 \/ ~IsBracket(o.y, QDecode(o.el, ev.q2), ev.left2 + 1))
                       THEN <<V({"C11", "C18"}, "C11|get_index_left_of|wrong-interval-y", <<ev.q2, ev.left2>>)>> ELSE <<>>)
-    IN  /\ bad' = bad \o Cap(vPoint \o vRange)
-        /\ cov' = Bump(cov, <<"ACC|" \o ev.what \o "|" \o o.kind>>)
-        /\ UNCHANGED <<objs, memoP, memoK, head>>
+    IN  [sigma EXCEPT !.bad = bad \o Cap(vPoint \o vRange),
+                   !.cov = Bump(cov, <<"ACC|" \o ev.what \o "|" \o o.kind>>)]
 
 DoMonoBatch(ev) ==
     LET its == ev.items
@@ -674,9 +680,8 @@ DoMonoBatch(ev) ==
         J == [i \in 1..Len(its) |-> judge(its[i])]
         badI == SelectSeq([i \in 1..Len(its) |-> i], LAMBDA i : J[i].bad # "")
         vv == [k \in 1..Len(badI) |-> V({"C12"}, "C12|monotonic_prop|" \o J[badI[k]].bad, <<its[badI[k]].v, its[badI[k]].out, J[badI[k]].want>>)]
-    IN  /\ bad' = bad \o Cap(vv)
-        /\ cov' = Bump(cov, [i \in 1..Len(its) |-> J[i].class])
-        /\ UNCHANGED <<objs, memoP, memoK, head>>
+    IN  [sigma EXCEPT !.bad = bad \o Cap(vv),
+                   !.cov = Bump(cov, [i \in 1..Len(its) |-> J[i].class])]
 
 DoLowerBatch(ev) ==
     LET x == DecSeq(ev.el, ev.x)
@@ -695,9 +700,8 @@ DoLowerBatch(ev) ==
         badI == SelectSeq([i \in 1..Len(its) |-> i], LAMBDA i : J[i].bad # "")
         vv == [k \in 1..Len(badI) |-> V({"C11"}, "C11|get_lower_index|" \o J[badI[k]].bad,
                                           <<IF n <= 12 THEN ev.x ELSE <<"len", n>>, its[badI[k]].q, its[badI[k]].res, its[badI[k]].pm>>)]
-    IN  /\ bad' = bad \o Cap(vv)
-        /\ cov' = Bump(cov, [i \in 1..Len(its) |-> J[i].class] \o <<"LOWERLEN|" \o (IF n <= 40 THEN "le40" ELSE IF n <= 1000 THEN "le1000" ELSE "gt1000")>>)
-        /\ UNCHANGED <<objs, memoP, memoK, head>>
+    IN  [sigma EXCEPT !.bad = bad \o Cap(vv),
+                   !.cov = Bump(cov, [i \in 1..Len(its) |-> J[i].class] \o <<"LOWERLEN|" \o (IF n <= 40 THEN "le40" ELSE IF n <= 1000 THEN "le1000" ELSE "gt1000")>>)]
 
 \* constructors / build on data of too low rank (C10: never a panic; build reports ShapeError)
 DoBLow(ev) ==
@@ -705,9 +709,8 @@ DoBLow(ev) ==
         vv == IF ev.out = "Panic" THEN <<V({"C10"}, "C10|constructor|Panic|" \o ev.what, <<ev.msg>>)>>
               ELSE IF ev.out # want THEN <<V({"C10"}, "C10|lowrank|wrong-outcome|" \o ev.what, <<ev.out, ev.msg>>)>>
               ELSE <<>>
-    IN  /\ bad' = bad \o vv
-        /\ cov' = Bump(cov, <<"BLOW|" \o ev.what \o "|" \o ev.out>>)
-        /\ UNCHANGED <<objs, memoP, memoK, head>>
+    IN  [sigma EXCEPT !.bad = bad \o vv,
+                   !.cov = Bump(cov, <<"BLOW|" \o ev.what \o "|" \o ev.out>>)]
 
 (***************************************************************************)
 (* C15: object b is declared to be object a in other units:                 *)
@@ -725,7 +728,7 @@ ScaledSide(sa, sb, c, d) ==
 
 DoRel(ev) ==
     IF ev.a \notin DOMAIN objs \/ ev.b \notin DOMAIN objs
-    THEN /\ cov' = Bump(cov, <<"REL|orphan">>) /\ UNCHANGED <<objs, memoP, memoK, bad, head>>
+    THEN [sigma EXCEPT !.cov = Bump(cov, <<"REL|orphan">>)]
     ELSE
     LET A == objs[ev.a]
         B == objs[ev.b]
@@ -748,51 +751,41 @@ DoRel(ev) ==
                     A.bcs[j].per = B.bcs[j].per /\ ScaledSide(A.bcs[j].l, B.bcs[j].l, c, d) /\ ScaledSide(A.bcs[j].r, B.bcs[j].r, c, d))
         okF == IsPow2(c) /\ QSign(c) > 0 /\ IsPow2(d) /\ IsPow2(c2) /\ QSign(c2) > 0
         rel == [a |-> ev.a, c |-> c, s |-> sft, d |-> d, c2 |-> c2, s2 |-> s2]
-    IN  /\ Assert(okX /\ okY /\ okD /\ okS /\ okF, <<"harness error: Rel claim does not hold", l, okX, okY, okD, okS, okF>>)
-        /\ objs' = [objs EXCEPT ![ev.b] = [rel |-> rel] @@ B]
-        /\ cov' = Bump(cov, <<"REL|" \o A.st.k \o (IF sft = Q0 /\ s2 = Q0 THEN "|scale" ELSE "|shift") \o (IF QSign(d) < 0 THEN "|neg" ELSE "|pos")>>)
-        /\ UNCHANGED <<memoP, memoK, bad, head>>
+    IN  IF Assert(okX /\ okY /\ okD /\ okS /\ okF, <<"harness error: Rel claim does not hold", l, okX, okY, okD, okS, okF>>)
+        THEN [sigma EXCEPT !.objs = [objs EXCEPT ![ev.b] = [rel |-> rel] @@ B],
+                   !.cov = Bump(cov, <<"REL|" \o A.st.k \o (IF sft = Q0 /\ s2 = Q0 THEN "|scale" ELSE "|shift") \o (IF QSign(d) < 0 THEN "|neg" ELSE "|pos")>>)]
+        ELSE sigma
 
 ----------------------------------------------------------------------------
-DoReset(ev) ==
-    /\ objs' = <<>>
-    /\ memoP' = {}
-    /\ memoK' = {}
-    /\ cov' = Bump(cov, <<"Reset">>)
-    /\ UNCHANGED <<bad, head>>
+DoReset(ev) == [sigma EXCEPT !.objs = <<>>, !.memoP = {}, !.memoK = {}, !.cov = Bump(cov, <<"Reset">>)]
 
 Init ==
     /\ l = 1
-    /\ objs = <<>>
-    /\ memoP = {}
-    /\ memoK = {}
-    /\ bad = <<>>
-    /\ cov = <<>>
-    /\ head = <<>>
+    /\ sigma = [objs |-> <<>>, memoP |-> {}, memoK |-> {}, bad |-> <<>>, cov |-> <<>>, head |-> <<>>]
 
 Step ==
     /\ l <= Len(Rec)
     /\ LET ev == Rec[l] IN
-        CASE ev.ev = "Reset" -> DoReset(ev)
-          [] ev.ev = "B1" -> DoB1(ev)
-          [] ev.ev = "Q1" -> DoQ1(ev)
-          [] ev.ev = "Mono" -> DoMono(ev)
-          [] ev.ev = "MonoBatch" -> DoMonoBatch(ev)
-          [] ev.ev = "LowerBatch" -> DoLowerBatch(ev)
-          [] ev.ev = "BLow" -> DoBLow(ev)
-          [] ev.ev = "Rel" -> DoRel(ev)
-          [] ev.ev = "Lower" -> DoLower(ev)
-          [] ev.ev = "Acc" -> DoAcc(ev)
-          [] ev.ev = "B2" -> DoB2(ev)
-          [] ev.ev = "Q2" -> DoQ2(ev)
-          [] OTHER -> Assert(FALSE, <<"unknown event", l, ev.ev>>)
+        sigma' = CASE ev.ev = "Reset" -> DoReset(ev)
+                [] ev.ev = "B1" -> DoB1(ev)
+                [] ev.ev = "Q1" -> DoQ1(ev)
+                [] ev.ev = "Mono" -> DoMono(ev)
+                [] ev.ev = "MonoBatch" -> DoMonoBatch(ev)
+                [] ev.ev = "LowerBatch" -> DoLowerBatch(ev)
+                [] ev.ev = "BLow" -> DoBLow(ev)
+                [] ev.ev = "Rel" -> DoRel(ev)
+                [] ev.ev = "Lower" -> DoLower(ev)
+                [] ev.ev = "Acc" -> DoAcc(ev)
+                [] ev.ev = "B2" -> DoB2(ev)
+                [] ev.ev = "Q2" -> DoQ2(ev)
+                [] OTHER -> Assert(FALSE, <<"unknown event", l, ev.ev>>)
     /\ l' = l + 1
 
 Finish ==
     /\ l = Len(Rec) + 1
     /\ PrintT("VERDICT " \o ToJson([consumed |-> l - 1, total |-> Len(Rec), bad |-> bad, cov |-> cov, head |-> head]))
     /\ l' = l + 1
-    /\ UNCHANGED <<objs, memoP, memoK, bad, cov, head>>
+    /\ UNCHANGED sigma
 
 Next == Step \/ Finish
 Spec == Init /\ [][Next]_vars
